@@ -105,3 +105,63 @@ class Text(str):
 
 def text(node):
     return Text(ast.unparse(node))
+
+
+def must_assign(fn, target):
+    """does every path of `fn` that reaches a normal return (or falls off the end) first assign `target` (text of the store target,
+    e.g. 'self._buf')?  Structured walk: if/else = AND of the branches that fall through; a loop body may run zero times (but its returns
+    are recorded with the state at loop entry / after the statements before them); `while True` without break does not fall through;
+    try: handlers start from the state before the body; raise ends a path.  Returns (ok, [line numbers of the returns reached unassigned])."""
+    import ast as _ast
+    bad = []
+
+    def assigns(st):
+        if isinstance(st, (_ast.Assign, _ast.AugAssign, _ast.AnnAssign)):
+            tgts = st.targets if isinstance(st, _ast.Assign) else [st.target]
+            for t in tgts:
+                for x in _ast.walk(t):
+                    if isinstance(x, (_ast.Attribute, _ast.Name, _ast.Subscript)) and _ast.unparse(x) == target:
+                        return True
+        return False
+
+    def block(stmts_, st):
+        for s in stmts_:
+            if st is None:
+                return None
+            if assigns(s):
+                st = True
+            elif isinstance(s, _ast.Return):
+                if not st:
+                    bad.append(s.lineno)
+                return None
+            elif isinstance(s, _ast.Raise):
+                return None
+            elif isinstance(s, _ast.If):
+                a, b = block(s.body, st), block(s.orelse, st)
+                outs = [x for x in (a, b) if x is not None]
+                st = None if not outs else all(outs)
+            elif isinstance(s, (_ast.While, _ast.For)):
+                inner = block(s.body, st)
+                forever = isinstance(s, _ast.While) and isinstance(s.test, _ast.Constant) and s.test.value is True and \
+                    not any(isinstance(x, _ast.Break) for x in _ast.walk(s))
+                if forever:
+                    return None
+                if s.orelse:
+                    block(s.orelse, st)
+            elif isinstance(s, _ast.With):
+                st = block(s.body, st)
+            elif isinstance(s, _ast.Try):
+                a = block(s.body, st)
+                hs = [block(h.body, st) for h in s.handlers]
+                if s.orelse and a is not None:
+                    a = block(s.orelse, a)
+                outs = [x for x in [a] + hs if x is not None]
+                st = None if not outs else all(outs)
+                if s.finalbody:
+                    f = block(s.finalbody, bool(st))
+                    st = None if f is None else (f or bool(st))
+        return st
+    end = block(fn.body, False)
+    if end is False:
+        bad.append(getattr(fn, "end_lineno", 0))
+    return (not bad, bad)
